@@ -158,3 +158,84 @@ class Translator:
 
         explit = '[' + '; '.join(f'({c}, {v}, {dl(a)}, {dl(b)}, {dl(cc)})' for c, v, a, b, cc in exp) + ']'
         return name, ulit, '[' + '; '.join(hist) + ']', explit
+
+
+NOTIF = {'metrics_by_handle': 0, 'alert_by_handle': 0, 'component_by_handle': 0, 'operation_by_handle': 0,
+         'waveform_by_handle': 0, 'context_by_handle': 1, 'new_descriptors_by_handle': 2,
+         'updated_descriptors_by_handle': 3, 'deleted_descriptors_by_handle': 4}
+MOD = {'Crt': 0, 'Upt': 1, 'Del': 2}
+
+
+class ConsumerTranslator(Translator):
+    """wire reports + consumer deltas of a trace -> literals for coq/Mdib/CRun.v"""
+
+    def cinit_literal(self, name, snap, seq_id, inst):
+        ds = '; '.join(f'({self.it.h(x[0])}, mkDescr {oz(self.it.h(x[1]))} {self.kind(x[0], x[2])} {x[3]} {self.it.p(x[4])})'
+                       for x in snap['descrs'])
+        ss = '; '.join(f'({self.it.h(x[0])}, mkState {x[3]} {x[2]} {self.it.p(x[4])})' for x in snap['states'])
+        cs = '; '.join(f'({self.it.h(x[0])}, mkCState {self.it.h(x[1])} {x[3]} {x[2]} {ASSOC.get(x[4], 9)} {oz(x[5])} {oz(x[6])} {self.it.p(x[7])})'
+                       for x in snap['cstates'])
+        return f'Definition {name} : cmdib := mk_cmdib [{ds}] [{ss}] [{cs}] {snap["ver"]} {seq_id} {inst if inst is not None else 0}.'
+
+    def st(self, x):
+        return f'({self.it.h(x[0])}, mkState {x[3]} {x[2]} {self.it.p(x[4])})'
+
+    def cst(self, x):
+        return (f'({self.it.h(x[0])}, mkCState {self.it.h(x[1])} {x[3]} {x[2]} {ASSOC.get(x[4], 9)} {oz(x[5])} '
+                f'{oz(x[6])} {self.it.p(x[7])})')
+
+    def report(self, r, seqs):
+        seq = seqs.setdefault(r['seq'], len(seqs) + 1)
+        vg = f'(mkVg {r["ver"]} {seq} {r["inst"] if r["inst"] is not None else 0})'
+        if r['kind'] == 'DescriptionModificationReport':
+            parts = []
+            for p in r['parts']:
+                ds = '; '.join(f'({self.it.h(x[0])}, mkDescr {oz(self.it.h(x[1]))} {self.kind(x[0], x[2])} {x[3]} {self.it.p(x[4])})'
+                               for x in p['descrs'])
+                ss = '; '.join(self.st(x) for x in p['states'] if len(x) == 5)
+                cs = '; '.join(self.cst(x) for x in p['states'] if len(x) == 8)
+                parts.append(f'mkDPart {MOD[p["mod"]]} [{ds}] [{ss}] [{cs}]')
+            return f'RDescr {vg} [{"; ".join(parts)}]'
+        items = [x for p in r['parts'] for x in p['states']]
+        if r['kind'] == 'EpisodicContextReport':
+            return f'RCtx {vg} [{"; ".join(self.cst(x) for x in items)}]'
+        return f'RState {vg} [{"; ".join(self.st(x) for x in items)}]'
+
+    def consumer_case(self, case, result, delivered=None):
+        """delivered: optional per-step list of report lists actually handed to the consumer (fault streams);
+        default = the reports the provider sent in that step."""
+        import hashlib, json
+        snap = result['init']['prov']
+        seqs = {snap['seq']: 1}
+        core = {k: snap[k] for k in ('descrs', 'states', 'cstates', 'ver')}
+        name = 'cinit_' + hashlib.sha1(json.dumps(core, sort_keys=True).encode()).hexdigest()[:10]
+        base_kinds = dict(self.kind_of)
+        for op in case['ops']:
+            for a in op.get('actions', []):
+                if a[0] == 'add':
+                    self.kind_of.setdefault(a[1], TXK[TX_OF_TYPE[a[3]]])
+        if name not in self.init_defs:
+            self.init_defs[name] = self.cinit_literal(name, snap, 1, snap['inst'])
+        steps, exp = [], []
+        for n, st in enumerate(result['trace']):
+            reps = delivered[n] if delivered is not None else [r for r in st['reports'] if not r.get('other') and r['kind'] != 'UNPARSABLE']
+            steps.append('[' + '; '.join(self.report(r, seqs) for r in reps) + ']')
+            d = st['cons']
+            notes = sorted((NOTIF[name_], self.it.h(k)) for name_, keys in st.get('notif', []) for k in keys)
+            exp.append((d['ver'], {'invalid': 0, 'initializing': 1, 'initialized': 2}.get(st.get('cmode'), 2),
+                        [(self.it.h(x[0]), self.enc_d(x)) for x in d['descrs']['set']] + [(self.it.h(h), []) for h in d['descrs']['del']],
+                        [(self.it.h(x[0]), self.enc_s(x)) for x in d['states']['set']] + [(self.it.h(h), []) for h in d['states']['del']],
+                        [(self.it.h(x[0]), self.enc_c(x)) for x in d['cstates']['set']] + [(self.it.h(h), []) for h in d['cstates']['del']],
+                        notes))
+        self.kind_of = base_kinds
+        universe = sorted(self.it.handles.values())
+        ulit = '[' + '; '.join(str(u) for u in universe) + ']'
+
+        def dl(lst):
+            lst = sorted(lst, key=lambda e: e[0])
+            return '[' + '; '.join(f'({h}, [{"; ".join(str(v) for v in enc)}])' for h, enc in lst) + ']'
+
+        explit = '[' + '; '.join(
+            f'({v}, {m}, {dl(a)}, {dl(b)}, {dl(cc)}, [{"; ".join(f"({x}, {y})" for x, y in nn)}])'
+            for v, m, a, b, cc, nn in exp) + ']'
+        return name, ulit, '[' + '; '.join(steps) + ']', explit
